@@ -136,7 +136,7 @@ class VcdGenerationPass( BasePass ):
       # Special case the top level "s" to "top"
 
       my_name = m.get_field_name()
-      if my_name == "s":
+      if m is top:
         my_name = "top"
 
       # Create a new scope for this module
